@@ -149,6 +149,16 @@ def _one(d, ctx, kinds, **gen_kw):
 
     post = ctx.lib(mm.predict, model, case, allow=() if regular else mm.EXPLICIT,
                    allow_if=mm.explicit_refusal, clause='predict-raises')
+    if case.kind == 'cbmm' and not np.all(np.isfinite(post)):
+        lam = np.asarray(model.complex_bingham.covariance_eigenvalues)
+        if np.any(lam < -1e6):
+            # numerically rank-deficient class scatter: the unbounded Bingham
+            # concentration (-1/eigenvalue) overflows the normaliser
+            raise Violation(
+                'cbmm-non-finite-posterior-for-rank-deficient-scatter',
+                f'Bingham eigenvalues down to {lam.min():.3e}; '
+                f'{int(np.sum(~np.isfinite(post)))} non-finite posteriors',
+                kind='cbmm', scatter='numerically-rank-deficient')
     check_valid(post, case, 'predict', mask=mask)
 
     # Bayes rule from the component log_pdf and the stored weights
